@@ -827,3 +827,27 @@ def sub_pairs(ctx, fi):
             if ps and rs and len(ps) == len(rs) and all(isinstance(x, str) for x in ps + rs):
                 out.extend((a, b, c) for a, b in zip(ps, rs))
     return out
+
+
+def fold_in_func(ctx, fi, expr):
+    """Fold ``expr`` as seen inside function ``fi``: local constants, module
+    names, and ``self.X`` / ``cls.X`` / ``<Class>.X`` resolved to the class
+    attribute of the (outermost) enclosing class."""
+    env = dict(ctx.fold.func_env(fi))
+    f = fi
+    while f.outer is not None:
+        f = f.outer
+    ci = f.cls
+    if ci is not None:
+        cv = ctx.fold.module_env(f.module.name).get(ci.name)
+        attrs = getattr(cv, 'attrs', None) or {}
+
+        class _R(ast.NodeTransformer):
+            def visit_Attribute(self, n):
+                if isinstance(n.value, ast.Name) and n.value.id in ('self', 'cls', ci.name) and n.attr in attrs:
+                    env[f"__clsattr_{n.attr}"] = attrs[n.attr]
+                    return ast.copy_location(ast.Name(id=f"__clsattr_{n.attr}", ctx=ast.Load()), n)
+                return self.generic_visit(n)
+        import copy
+        expr = ast.fix_missing_locations(_R().visit(copy.deepcopy(expr)))
+    return ctx.fold.eval(expr, env, fi.module.name)
